@@ -7,6 +7,9 @@ VERIF = os.path.dirname(os.path.dirname(os.path.abspath(__file__)))
 
 # id -> (technique, level text, level note, design ref)   -- only checks that exist under mc/checks are claimed
 CHECKS = {
+    "C14": ("exhaustive differential enumeration of entry points x types x versions x identifier classes against a direct parse",
+            "Every public entry point with a version parameter (dict_to_stix2, parse, parse_observable, MemoryStore/MemorySource/MemorySink construction, add (object and list form), load_from_file, FileSystemSource get/all_versions/query and FileSystemStore.get over raw files, FileSystemSink.add in dict/text/list form) x every type of both content versions x version argument {None, 2.0, 2.1} x 5 identifier classes (UUIDv4, UUIDv1, nil, non-RFC-4122 variant, malformed) x allow_custom {False, default} is compared with stix2.parse(content, allow_custom, version=version): same class or same refusal; the strict outcome is recomputed after the same content went through the relaxed mode (history independence); with no version named the library's own serialization is recognised as its version by every entry point.",
+            "trusted: stix2.parse(..., version=) as reference (the parser itself is judged by C02/C03); filesystem read entries only with ids the directory layout can address", "DESIGN.md §3 C14"),
     "C06": ("bounded exhaustive enumeration of observable contents x entry forms / argument orders against an independent RFC 8785 + uuid5 recomputation",
             "All 18 SCO types of STIX 2.1 plus two harness-registered custom observables: every generated valid instance (every property x value alphabet incl. escapes, astral characters, boundary and 1e16-1e21 numbers, timestamp spellings, extensions with floats / nested lists / embedded objects; thorough: pairs), every subset of the contributing properties, 171 hash dictionaries (subsets x insertion orders x alias spellings) per hash-carrying type, each built through 8 entry forms / keyword and nested-dictionary orders and by re-parsing the own serialization without id. The id must equal type + uuid5(STIX namespace, independent canonical JSON of exactly the contributing properties of the serialized object with one hash chosen by precedence), be a fresh UUIDv4 when none is present, be unaffected by non-contributing properties, and ids <-> contributing values must be a bijection over the whole enumerated set.",
             "trusted: contributing-property lists frozen in mc/spec/stix21.json; mc/ref/jcs.py; 'else first' hash choice is order-dependent by definition, such dictionaries are not permuted", "DESIGN.md §3 C06"),
